@@ -68,6 +68,9 @@ static int reg_of(void *data, const char *what)
 }
 
 static void do_random_ops(int inside);
+static void op_add_fd(void);
+static int draining;
+static long n_readd_in_retire;
 
 /* trampolines */
 static void job_cb(void *data)
@@ -122,7 +125,7 @@ static int32_t fd_cb(int32_t fd, int32_t revents, void *data)
 	if (R[i].state != ST_LIVE) { if (vp_chance(&rng, 1, 2)) { feat_neg_after_selfdel++; return -1; } return 0; }   /* deleted itself from inside; "remove me" on top of that must be harmless (also for what was added meanwhile) */
 	if (m == 2 && R[i].fd_dispatches >= 2) {              /* retire by negative return */
 		R[i].state = ST_DELETED;
-		if (vp_chance(&rng, 2, 3)) { close(fd); R[i].fd_closed = 1; } else feat_neg_fd_open = 1;
+		if (vp_chance(&rng, 2, 3)) { close(fd); R[i].fd_closed = 1; if (!draining && mode != M_FAIR && vp_chance(&rng, 1, 3)) { n_readd_in_retire++; op_add_fd(); } /* the number is free again: a new descriptor added right here usually gets it */ } else feat_neg_fd_open = 1;
 		dropud(i);
 		return -1;
 	}
@@ -272,7 +275,33 @@ static void op_mod_fd(void)
 	if (rc == 0) R[i].prio = np; else vp_violation("loop:poll-mod-failed", "fd %d rc=%d", R[i].fd, rc);
 }
 
-static int depth, draining;
+static long n_dup_adds, n_foreign_job_dels, n_sig_mods;
+/* adding a descriptor that is registered already is refused and changes nothing (a later delete still removes the real one) */
+static void op_add_dup_fd(void)
+{
+	int i = pick(K_FD, ST_LIVE); if (i < 0) return;
+	int rc = qb_loop_poll_add(L, (enum qb_loop_priority)vp_u(&rng, 3), R[i].fd, POLLIN, R[i].ud, fd_cb);
+	n_dup_adds++;
+	if (rc == 0) vp_violation("loop:duplicate-poll-add-accepted", "fd %d (reg#%d) added a second time: rc 0", R[i].fd, i);
+}
+/* qb_loop_job_del() names a job by (function, data): a timer (pending, or expired and queued for dispatch) that happens to
+ * have the same two values is not a job and must not be touched */
+static void op_job_del_foreign(void)
+{
+	int i = pick(K_TIMER, ST_LIVE); if (i < 0) return;
+	n_foreign_job_dels++;
+	int rc = qb_loop_job_del(L, (enum qb_loop_priority)R[i].prio, R[i].ud, timer_cb);
+	if (rc == 0) vp_violation("loop:job-del-removed-something-that-is-not-a-job", "job_del(prio %d, data and function of timer reg#%d) returned 0 (timer %s)", R[i].prio, i, vnow > R[i].hi ? "expired, probably queued" : "pending");
+}
+static void op_mod_sig(void)
+{
+	int i = pick(K_SIG, ST_LIVE); if (i < 0) return;
+	int np = (int)vp_u(&rng, 3); n_sig_mods++;
+	int rc = qb_loop_signal_mod(L, (enum qb_loop_priority)np, R[i].signo, R[i].ud, sig_cb, R[i].sh);
+	if (rc == 0) R[i].prio = np; else vp_violation("loop:signal-mod-failed", "signal reg#%d rc=%d", i, rc);
+}
+
+static int depth;
 static void do_random_ops(int inside)
 {
 	if (mode == M_FAIR || draining) return;   /* no new work while the final drain is judged */
@@ -286,7 +315,7 @@ static void do_random_ops(int inside)
 			if (r < 45) op_add_timer(); else if (r < 60) op_delete(); else if (r < 72) op_timer_query(); else if (r < 80) op_stale(); else if (r < 88) op_add_job(); else if (r < 94) op_add_fd(); else op_timer_query();
 		} else {
 			if (r < 18) op_add_job(); else if (r < 34) op_add_timer(); else if (r < 44) op_add_fd(); else if (r < 50) op_add_sig(); else if (r < 58) op_raise();
-			else if (r < 82) op_delete(); else if (r < 88) op_stale(); else if (r < 92) op_mod_fd();
+			else if (r < 80) op_delete(); else if (r < 84) op_stale(); else if (r < 86) op_add_dup_fd(); else if (r < 88) op_job_del_foreign(); else if (r < 90) op_mod_sig(); else if (r < 92) op_mod_fd();
 			else if (r < 94 && inside) { qb_loop_stop(L); stop_by_callback = 1; n_stop_cb++; feat_stop = 1; }
 			else op_timer_query();
 		}
@@ -472,7 +501,8 @@ int main(int argc, char **argv)
 	vp_count("adds", n_adds[0] + n_adds[1] + n_adds[2] + n_adds[3]); vp_count("deletes", n_dels[0] + n_dels[1] + n_dels[2] + n_dels[3]);
 	vp_count("deletes_of_probably_queued_items", n_del_queued); vp_count("stale_handle_uses", n_stale); vp_count("fd_numbers_reused", n_fd_reuse);
 	vp_count("ops_from_inside_callbacks", n_inside_ops); vp_count("stops_from_callbacks", n_stop_cb); vp_count("epoll_timeouts_checked", n_epoll_checks);
-	vp_count("negative_return_after_self_delete", feat_neg_after_selfdel);
+	vp_count("negative_return_after_self_delete", feat_neg_after_selfdel); vp_count("duplicate_descriptor_adds_refused", n_dup_adds); vp_count("job_del_naming_a_timer", n_foreign_job_dels);
+	vp_count("signal_priority_changes", n_sig_mods); vp_count("descriptor_added_in_retiring_callback", n_readd_in_retire);
 	vp_count("timer_queries", n_timer_queries); vp_count("usleep_calls_by_the_loop", n_usleep);
 	vp_finish();
 	return 0;
